@@ -12,8 +12,8 @@ CONSTANTS
     PRIOS <- PriosFull
     JUNK = {"garbage","empty","badma","nop2p"}
     MAXJUNK = 1
-    MAXIMPORTS = 2
-    FAULTS = {0,1,2}
+    MAXIMPORTS = 3
+    FAULTS = {0}
     MarshalStopsOnError = TRUE
     TruncInLock = TRUE
     MAXLOADS = 2
